@@ -936,6 +936,44 @@ def gen_fault(rng):
     return p
 
 
+def gen_probe(rng):
+    """flat graph + probes that wake every step and log a passive input's flags (C04)"""
+    p = gen_flat(rng)
+    p.end = p.start + rng.choice([6, 9, 12])
+    ports = [str(s.lbl) for s in p.root if s.kind != "sink"]
+    lbl = max([s.lbl for s in p.root] + [0]) + 1
+    body = list(p.root)
+    for m in rng.sample(ports, min(len(ports), rng.randint(1, 3))):
+        body.append(Stmt(lbl, "probe", [m])); lbl += 1
+    p.root = kahn_order(body)
+    return p
+
+
+def gen_feedback(rng):
+    """1-2 feedback loops (self loop through add/acc, with and without initial value)"""
+    p = Prog()
+    p.end = p.start + rng.choice([8, 12, 16])
+    p.ticks[901] = gen_ticks(rng, p.start, rng.randint(1, 5), 8)
+    body = [Stmt(1, "src", [901])]
+    lbl = 2
+    for fid in range(rng.randint(1, 2)):
+        init = [rng.randint(0, 5)] if rng.random() < 0.6 else []
+        body.append(Stmt(lbl, "fbsrc", [fid] + init)); f = lbl; lbl += 1
+        k = rng.choice(["add", "gate", "gatep"])
+        if k == "add":
+            body.append(Stmt(lbl, "add", [1, f]))
+        elif k == "gate":
+            body.append(Stmt(lbl, "gate", [1, f, "VU"]))
+        else:   # reader passive on the feedback: the loop must become quiescent
+            body.append(Stmt(lbl, "gate", [1, "~%d" % f, "VU"]))
+        c = lbl; lbl += 1
+        body.append(Stmt(lbl, "fbbind", [fid, c])); lbl += 1
+        body.append(Stmt(lbl, "sink", [c])); lbl += 1
+        body.append(Stmt(lbl, "sink", [f])); lbl += 1
+    p.root = kahn_order(body)
+    return p
+
+
 def engine_stream(name, progs):
     cases = [Case(p.lines(i), {"prog": p}) for i, p in enumerate(progs)]
     return Stream(name, [ENGINE], model_cmd("Engine"), cases, timeout=900)
